@@ -154,6 +154,10 @@ def check(ix, rep):
             rep.analysed(_de)
             _ne += _te.check_entry_verbatim(ix, rep, _de, _m.kind)
     rep.floor('data-entry stores', _ne, 1)
+    rep.floor('specification wrappers handing the data on', _te.check_wrapper_verbatim(ix, rep), 2)
+    # a constant declared through the API is the literal it stands for: no lossy rendering between declare_const() and the tables
+    from sa.rules import units as _units
+    rep.floor('forwarded declarations', _units.check_forwarding_exact(ix, rep), 6)
     # what evaluate() returns is the last entry of ast.specs: every assertion is appended there, in the order of the text (an assertion
     # that takes the slot of an earlier one with the same name makes an older formula the output)
     from sa.props import c09 as _c09
